@@ -109,6 +109,10 @@ Inductive case :=
 | CAlias (items : table) (add_rot : bool) (ns : nat) (edits : table) (obs_table : table) (packed : list N)
 (* user table with arbitrary integer states and an explicit list of 3x3 blocks *)
 | CUserQ (items : table) (add_rot : bool) (obs_table : table) (queries : list (list (list Z) * res Z))
+(* one evolve2d step (von Neumann, r = 1, torus) of a USER CTRBLRule on a grid; states and images are carried
+   scaled by a common factor (x4 for tables over quarter-integral float states), so keys stay integers and
+   key equality is the library's (2.0 == 2). obs = Ok next grid | Raise ValueError when some cell's key is absent *)
+| CUserGrid (items : table) (add_rot : bool) (g : list (list Z)) (obs : res (list (list Z)))
 (* random sample of keys through a loop's __call__ with the 3x3 block in another dtype (uint8, int8, int32,
    float64, bool): answers packed as in CStream, at most 729 per numeral *)
 | CSample (w : loop) (keys : list key) (packed : list N)
@@ -128,6 +132,9 @@ Definition model_codes (c : case) : list Z :=
   | CAlias items ar ns _ _ _ => map (ctrbl_code (ctrbl_new items ar)) (all_keys (states ns))
   | CUserQ items ar _ qs =>
       map (fun q => ctrbl_code (ctrbl_new items ar) (key_of_nbhd (fst q))) qs
+  | CUserGrid items ar g _ =>
+      concat (map (fun i => map (fun j => ctrbl_code (ctrbl_new items ar) (grid_key g (Z.of_nat i) (Z.of_nat j)))
+                               (seq 0 (length (nth 0 g [])))) (seq 0 (length g)))
   | CSample w keys _ => map (loop_code w) keys
   | CWitness w k _ => [loop_code w k; loop_code w (rot k); loop_code w (rot (rot k)); loop_code w (rot (rot (rot k)))]
   end.
@@ -182,6 +189,16 @@ Definition check_case (c : case) : bool :=
       table_eqb (ctrbl_new items ar) obs_table &&
       (* exact values and exact exception class (the property names ValueError) *)
       list_eqb (res_eqb Z.eqb) (map (fun q => CTRBLRule_call (ctrbl_new items ar) (fst q)) qs) (map snd qs)
+  | CUserGrid items ar g obs =>
+      let T := ctrbl_new items ar in
+      let cells := map (fun i => map (fun j => ctrbl_call T (grid_key g (Z.of_nat i) (Z.of_nat j)))
+                                     (seq 0 (length (nth 0 g [])))) (seq 0 (length g)) in
+      let bad := existsb (existsb (fun r => match r with Ok _ => false | Raise _ => true end)) cells in
+      match obs with
+      | Ok o => negb bad && zgrid_eqb o (map (map (fun r => match r with Ok v => v | Raise _ => 0 end)) cells)
+      | Raise ValueError => bad
+      | Raise _ => false
+      end
   | CSample _ _ packed => streams_ok (S (length packed)) (model_codes c) packed
   | CWitness w k obs4 => witness_ok w k obs4
   end.
